@@ -399,8 +399,16 @@ impl ScionPath {
             if rpc_path.latency.len() == expected_count_links {
                 for (meta, latency) in interface_meta.iter_mut().zip(rpc_path.latency.into_iter()) {
                     // A negative latency indicates that no latency is supplied, so we treat it as
-                    // None
-                    meta.latency = latency.try_into().ok();
+                    // None.
+                    // The sign is checked on the normalized value before converting: the fallible
+                    // conversion negates a negative duration to build its error, which overflows
+                    // (and panics with overflow checks enabled) for `seconds == i64::MIN`.
+                    let latency = latency.normalized();
+                    meta.latency = if latency.seconds < 0 || latency.nanos < 0 {
+                        None
+                    } else {
+                        latency.try_into().ok()
+                    };
                 }
             }
 
